@@ -14,6 +14,7 @@ class AllocRule(sym.Rule):
         self.ctor_ctx = ctor_ctx
         self.reports = {}      # dedupe key -> Report
         self.sites = set()
+        self.callers = irrules.callers_map(eng)
 
     def init(self, f, eng):
         return frozenset()
@@ -30,6 +31,7 @@ class AllocRule(sym.Rule):
                 return rs | {rec}
             if kind == 'DEALLOC' and ev.args and len(ev.args) >= 3:
                 p, n = ev.args[1], ev.args[2]
+                self.check_release(rs, ev, p, st, f, eng)
                 for rec in rs:
                     if rec[0] == p:
                         if rec[1] != n:
@@ -67,6 +69,54 @@ class AllocRule(sym.Rule):
             # checking that the field still holds p)
             return rs
         return rs
+
+    def check_release(self, rs, ev, p, st, f, eng):
+        """R04.5: what is handed to deallocate is a block obtained on this path, or the data pointer a
+        container held on entry on a path that established capacity > inline capacity - never the
+        inline buffer (a pointer into a container object itself) or anything else."""
+        from .ir_bounds import cmp_atom
+        from ..sym import single_atom, const_of
+        bn = base_name(f.pretty)
+        ok = None
+        why = None
+        if any(rec[0] == p for rec in rs):
+            ok = True
+        else:
+            a = single_atom(p)
+            if a is not None and a[0] == 'arg':
+                ok = True       # the helper's own parameter: judged where it is expanded
+            elif a is not None and a[0] == 'init' and eng.field_tag.get(a[1]) == 0:
+                o = a[1][2]
+                for (c, v) in st.conds:
+                    ca = cmp_atom(c)
+                    if ca is not None and ca[1] == 'ult' and v is True and const_of(ca[2]) is not None:
+                        i = single_atom(ca[3])
+                        if i is not None and i[0] == 'init' and eng.field_tag.get(i[1]) == 1 and i[1][2] == o:
+                            ok = True
+                if ok is None:
+                    # released unconditionally: acceptable only in helpers that are expanded into
+                    # guarded callers (no capacity test of their own)
+                    tested = any(at[0] == 'init' and eng.field_tag.get(at[1]) == 1 and at[1][2] == o
+                                 for (c, v) in st.conds for at in sym.atoms_of(c))
+                    if not tested and eng.summary(f.name) is not sym.OPAQUE and \
+                            any(self.orc.is_gch(c) for c in self.callers.get(f.name, ())):
+                        ok = True
+                    else:
+                        ok, why = False, 'the container\'s buffer is released on a path that has not established that it is heap-allocated'
+            elif p[2] and all(r[0] in ('arg', 'alloca') for r, c in p[2]) and len(p[2]) == 1:
+                ok, why = False, 'a pointer into a container object itself (the inline buffer) is handed to deallocate'
+            else:
+                ok = True       # pointers of other provenance (versioned re-reads) are not judged
+        dk = ('R04.5', f.name, where(ev, self.orc), ok)
+        if dk in self.reports:
+            return
+        if ok:
+            self.reports[dk] = Report('R04.5', True, None, sample={'function': bn, 'release': where(ev, self.orc), 'config': self.cfg.name})
+        else:
+            self.reports[dk] = Report('R04.5', False, {'function': bn, 'exit': 'bad-release', 'defect': why},
+                                      'R04.5: %s: %s (at %s) (%s)' % (bn, why, where(ev, self.orc), self.cfg.name),
+                                      {'function': f.pretty[:300], 'config': self.cfg.name, 'pointer': repr(p)[:200],
+                                       'file': 'source/include/gch/small_vector.hpp'})
 
     def on_exit(self, rs, kind, st, f, eng, rv=None):
         for rec in rs:
